@@ -407,3 +407,41 @@ def copy_completeness(ctx, rid):
                             fn, fn["body"], sig="copy-missing:%s:%s:%s" % (c["pk"], kind or ("asg-" + akind), x["n"]), rid=rid)
     if n == 0:
         ctx.fail("rule %s: no user-provided copy operation found" % rid)
+
+
+# ---------------------------------------------------------------- operator / merge-functor agreement
+OP_KIND = {"operator|": "join", "operator|=": "join", "operator||": "join", "widening_thresholds": "join", "join": "join",
+           "operator&": "meet", "operator&=": "meet", "operator&&": "meet", "meet": "meet"}
+FUNCTOR_KIND = (("join", "join"), ("union", "join"), ("widening", "join"), ("meet", "meet"), ("intersection", "meet"), ("narrowing", "meet"))
+
+
+def operator_functor_rule(ctx, rid, files):
+    """`operator|` merges the two trees with a join-like functor (join_op / union_op / widening_op), `operator&` with a meet-like
+    one: the functor classes differ only in default_is_absorbing(), so a swapped functor silently drops or keeps one-sided keys"""
+    n = 0
+    for f in files:
+        if not ctx.db.has_file(f):
+            continue
+        for fn in ctx.db.fns(f):
+            want = OP_KIND.get(fn["name"])
+            if want is None:
+                continue
+            body = fn["body"]
+            for dd in local_decls(body).values():
+                t = (dd.get("TC") or dd.get("T") or "")
+                tn = t.split("::")[-1].replace("const ", "").strip()
+                if not tn.endswith("_op"):
+                    continue
+                kinds = [k for w, k in FUNCTOR_KIND if w in tn]
+                if not kinds:
+                    continue
+                n += 1
+                if kinds[0] == want:
+                    ctx.ok("%s::%s merges with %s" % ((fn.get("cpk") or "").split("::")[-1], fn["name"], tn), fn, dd, rid=rid)
+                else:
+                    ctx.bad("%s::%s merges the two maps with `%s`, a %s-like functor, although the operator is a %s: bindings present in "
+                            "only one operand are %s" % ((fn.get("cpk") or "").split("::")[-1], fn["name"], tn, kinds[0], want,
+                                                         "dropped" if kinds[0] == "meet" else "kept"), fn, dd,
+                            sig="operator-functor:%s:%s" % (fn["name"], tn), rid=rid)
+    if n == 0:
+        ctx.fail("rule %s: no merge functor found" % rid)
